@@ -317,3 +317,84 @@ func ruleG1Dual(c *Ctx, r *Report, where string, wr *ssa.Function, mcall *ssa.Ca
 	r.check(nWrites == 1 && okArg && txt != nil, "G1", where, "dual delegation", c.pos(mcall.Pos()),
 		"Write emits exactly MarshalText's result with a single w.Write", fmt.Sprintf("Write does not emit exactly MarshalText's bytes (writes to w: %d, argument is MarshalText's result: %v)", nWrites, okArg))
 }
+
+// rulesNumWidth (NUM-WIDTH): a number parsed with strconv.ParseInt/ParseUint/ParseFloat is parsed at the
+// width of the type it is stored in — a narrower bitSize rejects (or rounds) values the writer can print.
+func rulesNumWidth(c *Ctx, r *Report, rels ...string) {
+	want := map[string]bool{}
+	for _, rel := range rels {
+		want[modPath+"/"+rel] = true
+	}
+	intBits := int64(c.sizes().Sizeof(types.Typ[types.Int]) * 8)
+	n := 0
+	for _, f := range c.moduleFuncs() {
+		if !want[funcPkgPath(f)] {
+			continue
+		}
+		instrs(f, func(in ssa.Instruction) {
+			cl, ok := in.(*ssa.Call)
+			if !ok || cl.Call.StaticCallee() == nil {
+				return
+			}
+			qn := qname(cl.Call.StaticCallee())
+			var bitArg ssa.Value
+			switch qn {
+			case "strconv.ParseInt", "strconv.ParseUint":
+				bitArg = cl.Call.Args[2]
+			case "strconv.ParseFloat":
+				bitArg = cl.Call.Args[1]
+			default:
+				return
+			}
+			n++
+			where := fname(f)
+			b, okB := cInt(constVal(bitArg))
+			if !okB {
+				r.undecided("NUM-WIDTH", where, qn, c.pos(cl.Pos()), "bitSize is not a constant")
+				return
+			}
+			if qn == "strconv.ParseFloat" {
+				r.check(b == 64, "NUM-WIDTH", where, qn, c.pos(cl.Pos()), "floats are parsed at 64 bits, the width they are stored and printed at", fmt.Sprintf("floats are parsed with bitSize %d but stored as float64: values the writer prints do not read back exactly", b))
+				return
+			}
+			if b == 0 {
+				b = intBits
+			}
+			// the type the value is converted to (or int64/uint64 itself)
+			var targets []types.Type
+			for _, ref := range *cl.Referrers() {
+				ex, ok := ref.(*ssa.Extract)
+				if !ok || ex.Index != 0 {
+					continue
+				}
+				direct := false
+				for _, r2 := range *ex.Referrers() {
+					switch y := r2.(type) {
+					case *ssa.Convert:
+						targets = append(targets, y.Type())
+					case *ssa.DebugRef:
+					default:
+						direct = true
+					}
+				}
+				if direct {
+					targets = append(targets, ex.Type())
+				}
+			}
+			bad := ""
+			for _, t := range targets {
+				bt, ok := t.Underlying().(*types.Basic)
+				if !ok || bt.Info()&types.IsInteger == 0 {
+					continue
+				}
+				w := c.sizes().Sizeof(bt) * 8
+				if w != b {
+					bad = fmt.Sprintf("parsed with bitSize %d, stored as %s (%d bits)", b, t.String(), w)
+				}
+			}
+			r.check(bad == "", "NUM-WIDTH", where, qn, c.pos(cl.Pos()), fmt.Sprintf("the %d-bit parse matches the width of the type the value is stored in", b),
+				"integer "+bad+": values the writer can print are rejected as out of range (or silently truncated)")
+		})
+	}
+	r.Extra["num_width_sites"] = n
+}
